@@ -26,7 +26,7 @@ pub fn run(args: &Args, r: &mut Report) {
         "c04-waiting-for-reboot-iff",
     ]);
     r.assume("policy / installer doubles respect their documented contracts (one install result per offered app, in response order)");
-    r.assume("duplicate app ids inside one response are not generated (don't-care)");
+    r.assume("when one response names an app id twice the installer double still returns one result per offered response app, in response order; only the announced states, error events and the result are judged for such responses");
     let n = args.budget(40_000, 400_000);
     for i in 0..n {
         if args.skip(i) {
@@ -60,7 +60,10 @@ pub fn run(args: &Args, r: &mut Report) {
                 throttles: false,
             }
         };
-        let case = gen_history(&mut rng, &cfg);
+        let mut case = gen_history(&mut rng, &cfg);
+        if rng.chance(1, 6) {
+            add_duplicate_ids(&mut case, &mut rng);
+        }
         let run = run_case(&case, &mut rng);
         r.eval(case.shape_key(), case.nontrivial);
         r.interleavings.insert(run.sig);
@@ -83,5 +86,45 @@ pub fn run(args: &Args, r: &mut Report) {
             }));
         }
         absorb(r, args, i, m, &run.w, case_desc(&case));
+    }
+}
+
+/// Repeat one app id inside the final response of some checks (results stay positional: one per offered
+/// response app).  Only used by C04, whose monitor judges states / error events / the result list.
+fn add_duplicate_ids(case: &mut FlowCase, rng: &mut Rng) {
+    use crate::sim::world::*;
+    let mut any = false;
+    for cs in case.script.checks.iter_mut() {
+        let Some(RespSpec::Reply(rep)) = cs.attempts.last_mut() else { continue };
+        if rep.status != 200 || rep.etag != EtagSpec::Auto {
+            continue;
+        }
+        let BodySpec::Doc(doc) = &mut rep.body else { continue };
+        if doc.apps.is_empty() {
+            continue;
+        }
+        let src = rng.usize(doc.apps.len());
+        let pos = rng.usize(doc.apps.len() + 1);
+        let had_offer = n_offered(doc) > 0;
+        let kinds: &[AppKind] = if had_offer {
+            &[AppKind::Offer, AppKind::NoUpdate, AppKind::NoUpdateCheck, AppKind::ErrorStatus]
+        } else {
+            &[AppKind::NoUpdate, AppKind::NoUpdateCheck, AppKind::Restricted]
+        };
+        let id = doc.apps[src].id.clone();
+        let dup = doc_app(&id, *rng.pick(kinds), rng, false);
+        let dup_offered = dup.updatecheck.as_ref().map(|u| u.status == "ok").unwrap_or(false);
+        doc.apps.insert(pos, dup);
+        if dup_offered && !cs.results.is_empty() {
+            // position of the new app among the offered ones
+            let k = doc.apps[..pos].iter().filter(|a| a.updatecheck.as_ref().map(|u| u.status == "ok").unwrap_or(false)).count();
+            let res = *rng.pick(&[InstRes::Installed, InstRes::Deferred, InstRes::Failed]);
+            cs.results.insert(k.min(cs.results.len()), res);
+        }
+        any = true;
+    }
+    if any {
+        case.shape.push("+dupid".into());
+        case.nontrivial = true;
     }
 }
